@@ -15,7 +15,7 @@ func init() {
 		technique: "writer-template / parser-cut agreement: the concatenation template is read from buildString, the cut sequence and occurrence policy from Parse; each delimiter must be outside the alphabet (from Validate's pattern literal) of the field its cut terminates; slice-bound rule for no-panic",
 		explanation: "Decides: (1) buildString writes exactly scheme '://' system '@' host ':' port '/' [parent '/'] name, in that order; (2) Parse undoes it: every cut uses a delimiter that cannot occur inside the field the cut terminates — first-occurrence cuts need the delimiter outside the alphabet of the field to their left, last-occurrence cuts outside the alphabet of the field to their right; alphabets: system/name/parent from the regular expression literal in Validate, port = digits, host = anything a TCP address accepts, in particular ':' (IPv6) and '.', but not '/' or '@'; (3) the regions produced by the cuts are passed to New/NewWithParent in the matching argument positions; (4) HostPortOf cuts at the same delimiters and HostPort/FormatHostPort render host ':' port like buildString; (5) no panic: every slice expression in Parse/HostPortOf is bounded by a strings index result guarded against -1, and there is no other index expression; only total string functions are called.",
 		assumptions: []string{"field alphabets: host characters are frozen as 'no / and no @' (what net accepts as a host)", "strconv/strings library functions are total", "Equals after parse is field-wise equality of the components checked"},
-		minObl:     16,
+		minObl:     21,
 		run:        runC26,
 	})
 }
